@@ -709,14 +709,19 @@ def rule_same_entity(ctx, rep: Report, rid="B6"):
                 decl_tpls.append((st, t))
     if not decl_tpls:
         raise AnalysisError("wrap_instantiated_class: class declaration template not found")
-    pexpr = decl_tpls[0][1].slot("class_parent").expr
-    pvals = values_of(fn, pexpr)
-    cp = [st for st in walk_no_nested(fn) if isinstance(st, ast.Assign) and st.value in pvals]
-    okp = any(f"{ip}.parent_class" in unparse(v) for v in pvals) and any(unparse(v) == "''" for v in pvals)
-    guard = [unparse(i.test) for i in walk_no_nested(fn) if isinstance(i, ast.If) and any(s2 in i.body for s2 in cp)]
-    rep.add(rid, "class:py::class_<...> names the declared base iff there is one", okp and guard == [f"{ip}.parent_class"],
-            f"class_parent assigned under {guard}", f"{ci.mod.rel}:{fn.lineno}")
-    decls = [" ".join(t.literal("@").split()) for _, t in decl_tpls]
+    okp_all, guards_all, details = True, [], []
+    for st_, t_ in decl_tpls:
+        pexpr = t_.slot("class_parent").expr
+        pvals = values_of(fn, pexpr) if pexpr is not None else []
+        cp = [st for st in walk_no_nested(fn) if isinstance(st, ast.Assign) and st.value in pvals]
+        okp = any(f"{ip}.parent_class" in unparse(v) for v in pvals) and any(unparse(v) == "''" for v in pvals)
+        guard = [unparse(i.test) for i in walk_no_nested(fn) if isinstance(i, ast.If) and any(s2 in i.body for s2 in cp)]
+        okp_all = okp_all and okp and guard == [f"{ip}.parent_class"]
+        details.append(f"line {st_.lineno}: class_parent <- {[unparse(v)[:40] for v in pvals]} under {guard}")
+    rep.add(rid, "class:py::class_<...> names the declared base iff there is one", okp_all,
+            "; ".join(details) + ": every registration of the class (with or without enums in its body) must carry the declared base, "
+            "otherwise the Python class silently loses its inherited members", f"{ci.mod.rel}:{fn.lineno}")
+    decls = [" ".join(t.deep_literal("@").split()) for _, t in decl_tpls]
     rep.add(rid, "class:registered as py::class_<Class, [Base,] std::shared_ptr<Class>>(module, \"Name\")",
             len(decls) == 2 and all(d.startswith("py::class_<@, @std::shared_ptr<@>>") for d in decls), f"{decls}",
             f"{ci.mod.rel}:{fn.lineno}")
